@@ -13,6 +13,7 @@ from ..argvcorpus import small, realistic
 from ..cliharness import cli_formula
 from ..refmodels.names import eval_formula
 
+PYTHON_O_STRIDE = {"quick": 4, "thorough": 2}      # every n-th case is repeated in an interpreter started with -O
 RULE = ("argv tail run through both tools with random.seed(s) before each: every formula sub-command with small parameters "
         "(all option combinations of the corpus, deterministic and random graph constructions) x 2 (quick) / 12 (thorough) RNG "
         "seeds, exact model-set equality up to 18 (quick) / 22 (thorough) variables; realistic sizes compared on sampled "
